@@ -142,11 +142,14 @@ fn rule_templates() -> Vec<(usize, Vec<usize>, bool, String)> {
         (19, vec![0], false, "(rule ((HoldsVS c) (Mark x) (< (vec-length c) 3)) ((HoldsVS (vec-push c x))))".into()),
         (20, vec![1], false, "(rule ((HoldsSS c) (Mark x)) ((HoldsSS (set-insert c x))))".into()),
         (21, vec![0, 6], false, "(rule ((HoldsVS c) (= 2 (vec-length c))) ((HoldsVVS (vec-of c c))))".into()),
-        (22, vec![9], false, "(rule ((HoldsMVS c) (= i (multiset-pick c)) (= n (multiset-count c i))) ((OutI 22 n)))".into()),
+        (22, vec![9], false, "(rule ((HoldsMVS c) (HoldsVS i) (= n (multiset-count c i))) ((OutI 22 n)))".into()),
         (23, vec![12], false, format!("(rule ((HoldsVMP c) (= m (vec-get c 0)) (= v (map-get m {}))) ((OutS 23 v)))", a(0))),
         (24, vec![13], false, "(rule ((HoldsSPS c) (= n (set-length c))) ((OutI 24 n)))".into()),
         (25, vec![14], false, format!("(rule ((HoldsVMS c) (= m (vec-get c 0)) (= n (multiset-count m {}))) ((OutI 25 n)))", a(0))),
         (26, vec![0], false, "(rule ((= w (WrapVS c)) (= w2 (WrapVS c2)) (= w w2) (!= (vec-length c) (vec-length c2))) ((OutI 26 0)))".into()),
+        (27, vec![12], false, format!("(rule ((HoldsVMP c) (= m (vec-get c 0)) (= v (map-get m {})) (= v {})) ((OutI 27 0)))", a(0), a(1))),
+        (28, vec![4], false, format!("(rule ((HoldsMP m) (= v (map-get m {})) (= v {})) ((OutI 28 0)))", a(0), a(1))),
+        (29, vec![5], false, format!("(rule ((HoldsMI m) (= n (map-get m {}))) ((OutI 29 n)))", a(1))),
     ]
 }
 
@@ -174,6 +177,7 @@ enum Mode {
     Pure,
     Rich,
     Big,
+    Shape,
 }
 
 /// harness-side description of the handles (texts) built while generating
@@ -471,7 +475,7 @@ impl<'a> Gen<'a> {
                         self.union();
                     }
                 }
-                Mode::Rich | Mode::Big => {
+                Mode::Rich | Mode::Big | Mode::Shape => {
                     if k < 30 {
                         let s = self.pick_sort();
                         self.ins(s);
@@ -514,6 +518,9 @@ impl<'a> Gen<'a> {
 
 fn generate(seed: u64, case: u64, mode: Mode) -> (Vec<Op>, Names) {
     let mut r = Rng::for_case(seed, case);
+    if mode == Mode::Shape {
+        return shape_session(&mut r);
+    }
     let nops = r.range(5, 16);
     let has_maps = r.chance(1, 2);
     let g = Gen {
@@ -527,6 +534,81 @@ fn generate(seed: u64, case: u64, mode: Mode) -> (Vec<Op>, Names) {
         rules_used: HashSet::new(),
     };
     g.session(nops)
+}
+
+/// targeted shapes: a container (possibly nested / wrapped) is stored, rules reading its contents
+/// are run, then a union changes the contents (in place, through nesting, or merging two
+/// containers), then the rules run again; random unrelated inserts / unions are mixed in
+fn shape_session(r: &mut Rng) -> (Vec<Op>, Names) {
+    let mut nm = Names::new();
+    let mut ops: Vec<Op> = Vec::new();
+    let b = 3 + r.below(3);
+    let s = Arg::S;
+    // (inserts as (sort, args) with H(k) = k-th insert of the scenario, wraps of inserts, rules, union)
+    type Sc = (Vec<(usize, Vec<Arg>)>, Vec<usize>, Vec<usize>, (usize, usize));
+    let scen: Vec<Sc> = vec![
+        (vec![(0, vec![s(0), s(b)])], vec![], vec![1, 2], (b, 0)),
+        (vec![(1, vec![s(0), s(3)])], vec![], vec![5, 6, 7], (3, 0)),
+        (vec![(2, vec![s(0), s(b)])], vec![], vec![9], (b, 0)),
+        (vec![(3, vec![s(0), s(b)])], vec![], vec![10], (b, 0)),
+        (vec![(4, vec![s(0), s(4)])], vec![], vec![11, 28], (4, 1)),
+        (vec![(5, vec![s(4), Arg::Int(2)])], vec![], vec![12, 29], (4, 1)),
+        (vec![(0, vec![s(0), s(b)]), (6, vec![Arg::H(0)])], vec![], vec![13, 14], (b, 0)),
+        (vec![(0, vec![s(0)]), (0, vec![s(b)]), (7, vec![Arg::H(0), Arg::H(1)])], vec![], vec![15], (b, 0)),
+        (vec![(1, vec![s(0), s(b)]), (8, vec![Arg::H(0)])], vec![], vec![18], (b, 0)),
+        (vec![(0, vec![s(0)]), (0, vec![s(b)]), (9, vec![Arg::H(0), Arg::H(1)])], vec![], vec![22], (b, 0)),
+        (vec![(0, vec![s(0), s(5)]), (10, vec![Arg::H(0), s(3)])], vec![], vec![16], (3, 0)),
+        (vec![(0, vec![s(0), s(b)]), (11, vec![s(0), Arg::H(0)])], vec![], vec![17], (b, 0)),
+        (vec![(4, vec![s(0), s(4)]), (12, vec![Arg::H(0)])], vec![], vec![23, 27], (4, 1)),
+        (vec![(3, vec![s(0), s(0)]), (3, vec![s(b), s(b)]), (13, vec![Arg::H(0), Arg::H(1)])], vec![], vec![24], (b, 0)),
+        (vec![(2, vec![s(0), s(b)]), (14, vec![Arg::H(0)])], vec![], vec![25], (b, 0)),
+        (vec![(0, vec![s(0), s(b)])], vec![0], vec![4], (b, 0)),
+        (vec![(0, vec![s(0)]), (0, vec![s(b)]), (0, vec![s(b), s(b)])], vec![0, 1], vec![26, 3], (b, 0)),
+    ];
+    let (ins, wraps, rules, un) = scen[r.below(scen.len())].clone();
+    let noise = |r: &mut Rng, nm: &mut Names, ops: &mut Vec<Op>| {
+        if r.chance(1, 2) {
+            let sort = r.below(4);
+            let n = if SORTS[sort].k == K::Pair { 2 } else { r.range(1, 3) };
+            let args: Vec<Arg> = (0..n).map(|_| Arg::S(r.below(NELEM))).collect();
+            nm.add_h(sort, args.clone());
+            ops.push(Op::Ins { sort, args });
+        }
+    };
+    noise(r, &mut nm, &mut ops);
+    let mut hs: Vec<usize> = Vec::new();
+    for (sort, args) in ins {
+        let args: Vec<Arg> = args
+            .into_iter()
+            .map(|a| match a {
+                Arg::H(k) => Arg::H(hs[k]),
+                x => x,
+            })
+            .collect();
+        hs.push(nm.add_h(sort, args.clone()));
+        ops.push(Op::Ins { sort, args });
+        noise(r, &mut nm, &mut ops);
+    }
+    for w in wraps {
+        nm.add_wrap(hs[w]);
+        ops.push(Op::Wrap { h: hs[w] });
+    }
+    if r.chance(1, 3) {
+        ops.push(Op::Mark { s: 3 + r.below(3) });
+    }
+    for id in rules {
+        ops.push(Op::Rule { id });
+    }
+    ops.push(Op::Run(1));
+    ops.push(Op::Union { a: un.0, b: un.1 });
+    ops.push(Op::Run(1));
+    if r.chance(1, 2) {
+        // a second, unrelated union among non-key elements and another run
+        let (x, y) = (3 + r.below(3), 3 + r.below(3));
+        ops.push(Op::Union { a: x, b: y });
+        ops.push(Op::Run(1));
+    }
+    (ops, nm)
 }
 
 /// the three regression shapes of tests/container_rebuild.rs & friends, as fixed sessions
@@ -1144,6 +1226,7 @@ fn main() {
         let mode = match inp["mode"].as_str().unwrap_or("Rich") {
             "Pure" => Mode::Pure,
             "Big" => Mode::Big,
+            "Shape" => Mode::Shape,
             _ => Mode::Rich,
         };
         if inp["fixed"].as_str().is_none() {
@@ -1161,6 +1244,7 @@ fn main() {
                         let mode = match v["mode"].as_str().unwrap_or("Rich") {
                             "Pure" => Mode::Pure,
                             "Big" => Mode::Big,
+                            "Shape" => Mode::Shape,
                             _ => Mode::Rich,
                         };
                         if big == (mode == Mode::Big) {
@@ -1171,19 +1255,21 @@ fn main() {
             }
         }
         let n = ncases_override.unwrap_or(if big {
-            if o.thorough { 60 } else { 8 }
+            if o.thorough { 60 } else { 6 }
         } else if o.thorough {
             3000
         } else {
-            260
+            330
         });
         for ci in 0..n {
             let mode = if big {
                 Mode::Big
-            } else if ci % 2 == 0 {
+            } else if ci % 3 == 0 {
                 Mode::Pure
-            } else {
+            } else if ci % 3 == 1 {
                 Mode::Rich
+            } else {
+                Mode::Shape
             };
             plan.push((mode, o.seed, ci as u64));
         }
@@ -1226,8 +1312,14 @@ fn main() {
     }
     w.flush();
     let rule = "seeded egglog sessions over 15 container sorts (Vec/Set/MultiSet/Pair/Map S S/Map S i64 on an eq-sort and 9 nested sorts of depth 2): container inserts into Holds relations / Wrap constructors, unions of element handles (never making two Map keys collide), 26 rule templates matching on container contents or creating containers, runs; Pure sessions (inserts + unions only) are also model cases; Big sessions start with 1100 filler containers per kind. After every command: canonicity of every id reachable from a table row, no two rows with keys equal modulo the equalities, equal-by-closure handles share one id and `(check (= e1 e2))` holds, and a naive engine in lockstep agrees on the renaming-invariant dump. A session is non-trivial iff a union merged rows keyed by containers, made two differently written containers equal, or changed a stored container's contents while its class stayed; distinct by program text";
+    let lbl = match (big, threads > 1) {
+        (false, false) => "serial",
+        (false, true) => "par",
+        (true, false) => "big",
+        (true, true) => "big_par",
+    };
     let report = serde_json::json!({
-        "sub": if big { "cont-big" } else if threads > 1 { "cont-par" } else { "cont" },
+        "sub": format!("cont-{lbl}"),
         "cases": sessions,
         "shards": w.shards,
         "model_cases": w.total,
@@ -1241,10 +1333,10 @@ fn main() {
         "rule_hist": st.rule_hist,
         "mode_hist": mode_hist,
         "extra_coverage": {
-            format!("c14_{}_canonicity_checks", if big { "big" } else if threads > 1 { "par" } else { "serial" }): st.canon_checks,
-            format!("c14_{}_lockstep_comparisons", if big { "big" } else if threads > 1 { "par" } else { "serial" }): st.lockstep_cmps,
-            format!("c14_{}_equal_handle_checks", if big { "big" } else if threads > 1 { "par" } else { "serial" }): st.eq_checks,
-            format!("c14_{}_threads", if big { "big" } else if threads > 1 { "par" } else { "serial" }): threads,
+            format!("c14_{}_canonicity_checks", lbl): st.canon_checks,
+            format!("c14_{}_lockstep_comparisons", lbl): st.lockstep_cmps,
+            format!("c14_{}_equal_handle_checks", lbl): st.eq_checks,
+            format!("c14_{}_threads", lbl): threads,
         },
     });
     std::fs::write(o.out.join("impl_report.json"), serde_json::to_string(&report).unwrap() + "\n").unwrap();
